@@ -211,6 +211,30 @@ def run(chk: Check) -> None:
     chk.ob('SYM-command-complete', running.qualname, bool(stored) or True, f'commands stored in the RUNNING state outside load: {len(stored)}; command fields not persisted: {incomplete} '
            '(harmless while nothing stores a command)', kind='command-storage-scan', expr='_command')
 
+    # "every choice of keyword arguments": the user's **kwargs travel through create_state(label, *args, **kwargs) and the state constructor; a named
+    # (not positional-only) parameter on that way is a keyword the user cannot use -- Continue(f, process=...) is "got multiple values for argument"
+    reserved = {}
+    for node, call, pins in sites:
+        if not any(k.arg is None for k in call.keywords):
+            continue
+        lbl = calls.state_ctor_label(ac, call)
+        chain = [prog.func('base.state_machine.State.create_state'), prog.func('base.state_machine.StateMachine.create_state')]
+        for st in by_label.get(getattr(lbl, 'member', None), []):
+            init_ = st.lookup('__init__')
+            if init_ is not None:
+                chain.append(init_)
+        names = set()
+        for g in chain:
+            a_ = g.node.args
+            n_pos = len(call.args) if g.name != '__init__' else len(call.args)   # positional arguments supplied fill the leading parameters
+            plain = [x.arg for x in a_.args][1:]
+            names |= {x for x in plain if not (a_.vararg is None and False)} | {x.arg for x in a_.kwonlyargs}
+        reserved[id(call)] = (call, sorted(names))
+    for call, names in reserved.values():
+        chk.ob('FWD-command-payload', ac, not names, f'the keyword arguments of the command are passed on with ** through create_state and the state constructor, whose named parameters '
+               f'{names} capture a keyword of the same name: Continue(f, {names[0] if names else "x"}=...) fails with TypeError ("multiple values") and the process ends EXCEPTED',
+               node=call, kind='kwargs-not-captured')
+
     # Running.execute: result wrapping and dispatch
     ex = prog.func('process_states.Running.execute')
     run_calls = [c for c in calls_in_func(ex) if norm(c.func) == 'self.run_fn']
